@@ -1,15 +1,22 @@
 from ..runner import Harness, Spec
+from ..translate import go_translator
 
 SPEC = Spec(
     pid="C12",
     lean_modules=["OtelVerif.Props.C12"],
+    translators=[go_translator("c12consts", "OtelVerif/Gen/C12Consts.lean")],
     harnesses=[
         Harness(name="resolve", module="confmap", pkg="confmap",
                 files={"zz_verif_c12_resolve_test.go": "c12/resolve_test.go"},
-                test="TestVerifC12Resolve", driver="drv_c12", n={"quick": 26000, "thorough": 400000}, timeout_s=1500),
+                test="TestVerifC12Resolve", driver="drv_c12", n={"quick": 23000, "thorough": 300000}, timeout_s=1500),
         Harness(name="env", module="confmap/internal/e2e", pkg="confmap/internal/e2e",
                 files={"zz_verif_c12_env_test.go": "c12/env_test.go"},
-                test="TestVerifC12Env", driver="drv_c12", n={"quick": 4000, "thorough": 60000}, timeout_s=900),
+                test="TestVerifC12Env", driver="drv_c12", n={"quick": 4000, "thorough": 60000}, timeout_s=900,
+                mod_append=["require go.opentelemetry.io/collector/confmap/provider/yamlprovider v1.30.0",
+                            "replace go.opentelemetry.io/collector/confmap/provider/yamlprovider => $REPO/confmap/provider/yamlprovider"]),
+        Harness(name="life", module="confmap", pkg="confmap",
+                files={"zz_verif_c12_life_test.go": "c12/life_test.go", "zz_verif_c12_resolve_test.go": "c12/resolve_test.go"},
+                test="TestVerifC12Life", driver="drv_c12", n={"quick": 3000, "thorough": 60000}, timeout_s=900),
     ],
     rule="cases 0-47 are the corpus (0-17: both escaping defects of the pinned tree, cycles incl. an embedded one-element cycle, $ in a name, "
          "typed whole value, nested reference, provider value with references/escapes, 999 vs 1000 references, a 5-source merge, "
@@ -34,13 +41,33 @@ SPEC = Spec(
          "unset and invalid names, ToStringMap + string/any decoding. override stream (1/7): a later source replaces keys whose earlier value is a "
          "reference to a provider MAP / an unresolvable reference (exact-override, must-succeed and provider-call oracles; every reference "
          "provider reports its calls as `tr retrieved`). dname (1/5 of rand): the only reference has a $ at the first/last/middle position of "
-         "its NAME (with/without scheme, whole/embedded, nested, in a list): must be the $-in-name error, provider never consulted. non-trivial = a token value with a reference "
-         "and an escape, or more than one source; distinct = distinct op sequences.",
+         "its NAME (with/without scheme, whole/embedded, nested, in a list): must be the $-in-name error, provider never consulted. "
+         "Second session: corpus 48-51 + every fourth merge case (`append`, ~820 per quick run) run Resolve with the confmap.enableMergeAppendOption gate ON: 2-4 "
+         "sources over four colliding keys whose values are mostly lists from a small element pool (strings, ints, bools, floats, nil, and - "
+         "VERIF_C12_APPEND_DEEP, default on - maps and lists as ELEMENTS), same key list/map/scalar in different sources, references and $$ in list "
+         "elements (1 in 4), repeated locations; model resolveAppend, Go oracle vSpecMergeAppend, Lean prop leafpaths on every such case. "
+         "env harness: 0-2 further top-level locations through the REAL yamlprovider (yaml:<json text>) and the REAL fileprovider (file:<path> and a bare "
+         "path, i.e. NewResolver's no-scheme fall-back), what they returned is the model's source. "
+         "life harness (model c12-life, 3000 cases): 14 corpus cases, then alternately ctor = NewResolver on generated settings (1-4 URIs: registered scheme, "
+         "well-formed unregistered scheme, no colon, drive letters and the other members of [A-z] + ':', malformed schemes, new line / ':' / '$' in the opaque "
+         "part, repeats; 0-4 provider schemes incl. one-letter, '1ab', duplicates, non-ASCII; default scheme registered or not), observed: r.uris or the error "
+         "class, the strings the recording providers receive in order, and the resolved config (every provider returns a map that is a fixed function of the "
+         "location text; gate on in every fourth case; model resolveSettings); life = 1-4 Resolve calls then Shutdown on sources with references into a "
+         "provider table that changes between calls (missing names: Resolve fails half-way; non-map source; unretrievable location; 1 in 3 cases with failing "
+         "Close functions), observed per call: the Close calls in order, len(r.closers), whether closing failed; inputs from the implementation: number of "
+         "successful Retrieve calls per call. non-trivial = a token value with a reference "
+         "and an escape, or more than one source / URI / more than two life calls; distinct = distinct op sequences.",
     trusted_base=[
         "Lean 4.33.0 kernel; axioms per theorem under axioms_per_theorem",
-        "hand-written model (no translator) of confmap/expand.go, resolver.go Resolve/escapeDollarSigns, provider.go Retrieved, confmap.go "
-        "sanitize/useExpandValue and koanf maps.Merge/Flatten/Keys/Unflatten, tied by exact differential on every run; the loop bound 1000 "
-        "and schemePattern are hand-copied constants pinned by corpus cases 10/11 and the rand pieces",
+        "hand-written model of confmap/expand.go, resolver.go NewResolver/Resolve/closeIfNeeded/escapeDollarSigns, merge.go mergeAppend/mergeSlice/"
+        "isPresent, provider.go Retrieved, confmap.go sanitize/useExpandValue and koanf maps.Merge/Flatten/Keys/Unflatten, tied by exact differential on "
+        "every run; translator c12consts (go/ast) regenerates Gen/C12Consts.lean: loop bound (default of Env.fuel), schemePattern classes (proved equal to the "
+        "model's validScheme: C12_validScheme_is_schemePattern), uriRegexp frame, drive-letter class and the `file` scheme (used by the NewResolver model), "
+        "type-switch case lists / strings.* literals / parity test / Kind switch / DeepEqual (theorem gen_source_shape: a change breaks the build)",
+        "reflect.DeepEqual on config values is modelled as structural equality (valEq: maps key-wise, order-insensitive); NaN elements and Go values other "
+        "than nil/bool/int/float64/string/[]any/map[string]any are not generated for the gate-on lists",
+        "closers: the number of successful Retrieve calls of each Resolve is an input taken from the implementation; which Close functions fail is chosen by "
+        "the harness; Watch/onChange and provider Shutdown errors are not modelled (provider Shutdown called once each: Go oracle only)",
         "YAML parsing (NewRetrievedFromYAML) is an input: the harness sends the parsed value and string representation the real "
         "constructor (or, in the env harness, the real envprovider) produced",
         "mapstructure decoding is modelled for the targets string, named string, *string, struct{V string}, []string, map[string]string, "
@@ -54,7 +81,8 @@ SPEC = Spec(
     assumptions=[
         "providers are pure functions of (scheme, name) during one Resolve",
         "map keys do not contain the koanf delimiter '::'",
-        "the confmap.enableMergeAppendOption feature gate is off (default)",
+        "the confmap.enableMergeAppendOption feature gate: the property's merge clause (lists REPLACED) is for the default, gate off; gate on is modelled "
+        "and proved separately (mergeAppend theorems: lists appended without duplicates, everything else as with the gate off)",
         "converters are not part of the property and are not configured",
         "theorems about expansion with references are for the unambiguous token fragment (provider strings free of '$'; not a bare "
         "reference), for embedded references with arbitrary provider text one round at a time (C12_embedded_substituted), for nested "
@@ -62,7 +90,9 @@ SPEC = Spec(
         "references/escapes, and references inside map/list provider values, are tied by the differential and the leftover/sem oracles",
         "C12_resolve_lookup / C12_unflatten_flatten_lookup assume unique keys in every source map (HNK; what Go maps guarantee) and speak "
         "about the leaf paths of the merged sources (koanf leaves: non-map values and empty maps)",
-        "cycle theorems cover the identical whole-value 1-cycle and every embedded self-reference; longer cycles (A->B->A), cycles through "
-        "map/list values: differential + corpus",
+        "cycle theorems cover reference chains / cycles of ANY length through whole string values (C12_whole_value_chain_error) and through embedded "
+        "references (C12_embedded_chain_error); cycles through map/list provider values: differential + corpus",
+        "NewResolver theorems are about the URI list and the provider SCHEMES; that a provider's Scheme() equals the key it is registered under is the "
+        "provider's contract",
     ],
 )
